@@ -130,6 +130,8 @@ class MinErrorFlow():
             raise ValueError(f"flow_attr_origin must be either 'node' or 'edge', not {self.flow_attr_origin}")
 
         self.original_graph_copy = deepcopy(self.G_internal)
+        self.additional_starts_internal = set(additional_starts_internal)
+        self.additional_ends_internal = set(additional_ends_internal)
         self.sparsity_lambda = sparsity_lambda
         
         if nx.is_directed_acyclic_graph(self.G_internal):
@@ -140,6 +142,10 @@ class MinErrorFlow():
             self.G = self.G_internal
             self.is_acyclic = False
             self.edges_to_ignore = set(edges_to_ignore_internal)
+            for node in list(additional_starts_internal) + list(additional_ends_internal):
+                if node not in self.G.nodes():
+                    utils.logger.error(f"{__name__}: Some nodes in additional_starts or additional_ends are not in the graph.")
+                    raise ValueError("Some nodes in additional_starts or additional_ends are not in the graph.")
             if self.sparsity_lambda != 0:
                 utils.logger.error(f"{__name__}: You cannot set sparsity_lambda != 0 for a graph with cycles.")
                 raise ValueError(f"You cannot set sparsity_lambda != 0 for a graph with cycles.")
@@ -226,8 +232,7 @@ class MinErrorFlow():
         for node in self.G.nodes():
             if self.G.in_degree(node) == 0 or self.G.out_degree(node) == 0:
                 continue
-            # Flow conservation constraint
-            self.solver.add_constraint(
+            in_flow_minus_out_flow = (
                 self.solver.quicksum(
                     self.edge_vars[(u, v)]
                     for (u, v) in self.G.in_edges(node)
@@ -236,9 +241,20 @@ class MinErrorFlow():
                     self.edge_vars[(u, v)]
                     for (u, v) in self.G.out_edges(node)
                 )
-                == 0,
-                name=f"flow_conservation_{node}",
             )
+            # For acyclic graphs the additional starts/ends are connected to the global source/sink of the stDAG.
+            # For graphs with cycles (no global source/sink) flow may additionally start (end) in the additional starts (ends).
+            is_start = (not self.is_acyclic) and node in self.additional_starts_internal
+            is_end = (not self.is_acyclic) and node in self.additional_ends_internal
+            if is_start and is_end:
+                continue
+            elif is_start:
+                self.solver.add_constraint(in_flow_minus_out_flow <= 0, name=f"flow_conservation_{node}")
+            elif is_end:
+                self.solver.add_constraint(in_flow_minus_out_flow >= 0, name=f"flow_conservation_{node}")
+            else:
+                # Flow conservation constraint
+                self.solver.add_constraint(in_flow_minus_out_flow == 0, name=f"flow_conservation_{node}")
         
         # Encoding the edge error variables
         for u, v, data in self.G.edges(data=True):
